@@ -14,8 +14,9 @@ from hypothesis import strategies as st
 
 from .ir import Spec, grid_nodes
 
-VAR_POOL = ["zeta", "b_x", "Alpha", "k2", "mm", "q_y", "Wd", "eta", "c9", "hh", "Yb", "a_1"]
-AUX_POOL = ["income", "Gam", "aux_b"]
+VAR_POOL = ["zeta", "b_x", "Alpha", "k2", "mm", "q_y", "Wd", "eta", "c9", "hh", "Yb", "a_1",
+            "r3", "Ux", "v_v", "j7", "Nn", "o_2", "tq", "Ey", "g4", "Lz"]
+AUX_POOL = ["income", "Gam", "aux_b", "tax_filter_cost", "budget_constraint_slack"]
 PARAM_POOL = ["scale", "rate", "k"]
 
 
@@ -53,6 +54,7 @@ class Profile:
     allow_period: bool = True
     p_near_tie: float = 0.0
     min_cont_states: int = 0
+    min_disc_states: int = 0
     p_next_dependent_constraint: float = 0.15
     max_RC: int = 2
     min_RC: int = 0
@@ -181,7 +183,7 @@ def model_specs(draw, prof: Profile = Profile()):
     b.T = T
     Tp = T if prof.allow_period else 1  # period-dependent features only if allowed
     fully_discrete = d.bool(prof.fully_discrete) if prof.fully_discrete else False
-    nds = d.int(0, prof.max_disc_states)
+    nds = d.int(min(prof.min_disc_states, prof.max_disc_states), prof.max_disc_states)
     ncs = 0 if fully_discrete else d.int(min(prof.min_cont_states, prof.max_cont_states), prof.max_cont_states)
     ndc = d.int(0, prof.max_disc_choices)
     ncc = 0 if fully_discrete else d.int(0, prof.max_cont_choices)
@@ -375,12 +377,19 @@ def model_specs(draw, prof: Profile = Profile()):
 
     # -------------------------------------------------------------- constraints
     bonus_terms = []  # (expression without parameter names, variable/function args)
+    nan_term = None
     if cchoices and d.bool(prof.p_budget):
         c = d.choice(cchoices)
         cmin = float(grid_nodes(choices[c])[0])
         args = [c]
         if cstates and d.bool(0.8):
             w = d.choice(cstates)
+            gw, gc = states[w], choices[c]
+            if d.bool(0.5) and gc[3] >= 2 and (gc[0] == "lin" or float(gw[1]) > 0):
+                # the choice grid spans the state's range (consumption grid over the wealth range),
+                # so that the constraint binds for most agents
+                choices[c] = (gc[0], gw[1], gw[2], gc[3])
+                cmin = float(grid_nodes(choices[c])[0])
             lhs = f"xp.maximum({w}, {cmin})"
             args.append(w)
             touched.add(w)
@@ -413,6 +422,10 @@ def model_specs(draw, prof: Profile = Profile()):
         else:
             margin = f"{lhs}{extra}{pexpr} - {c} + 1.3e-06"
             margin_inl = f"{lhs}{extra}{pexpr_inl} - {c} + 1.3e-06"
+            if d.bool(0.45):
+                # utility is NaN exactly where this constraint fails (log of a negative number),
+                # as in log(resources - savings)
+                nan_term = (f"0.05 * xp.log({margin_inl})", list(var_args))
         functions["budget_constraint"] = dict(
             args=list(dict.fromkeys(args)), body=f"{margin} >= 0", margin=margin
         )
@@ -473,6 +486,9 @@ def model_specs(draw, prof: Profile = Profile()):
         if d.bool(0.7):
             terms.append(f"{d.num(0.2, 0.8)} * {an}")
             uargs.append(an)
+    if nan_term is not None:
+        terms.append(nan_term[0])
+        uargs += nan_term[1]
     if bonus_terms and d.bool(prof.p_bonus):
         # infeasible choices get the HIGHEST utility: a dropped mask changes V by O(1)
         for expr, a in bonus_terms:
@@ -545,8 +561,8 @@ def model_specs(draw, prof: Profile = Profile()):
             an = d.choice(aux_names)
             e += f" + 0.2 * {an}"
             args.append(an)
-        if Tp > 1 and d.bool(0.15):
-            e += " + 0.05 * _period"
+        if Tp > 1 and d.bool(0.2):
+            e += " + 0.05 * _period" if d.bool(0.5) else " + 0.04 * (_period - 2)"
             args.append("_period")
         if prof.every_function_has_params or d.bool(0.5):
             pn = d.choice(PARAM_POOL)
